@@ -136,11 +136,14 @@ func TestC04_DisjointWritersBothCommit(t *testing.T) {
 		if err != nil {
 			t.Fatalf("HARNESS-ERROR %v", err)
 		}
-		res, s := e.RunConcurrent(stores, progs, schedule, txh.ConcOpts{MaxTime: 15 * time.Second, Budget: 90 * time.Second})
+		res, s := e.RunConcurrent(stores, progs, schedule, txh.ConcOpts{GateCommits: knownSnapshot, MaxTime: 15 * time.Second, Budget: 90 * time.Second})
 		desc := fmt.Sprintf("slot=%d %s seed=%v %s schedule=%s", slot, txh.PlacementNames[placement], seed, renderProgs(progs), renderSched(schedule))
 		if s.TimedOut {
 			rec.Discard()
 			return
+		}
+		if s.Gated > 0 {
+			rec.Exclude("a commit was held back until no other transaction was in the middle of its operations (known finding: inconsistent snapshot while others commit)")
 		}
 		want := models[0].Clone()
 		merged, refused, missed := false, false, false
